@@ -2014,6 +2014,18 @@ func generateScenarios(prop string, seed uint64, n int, adv bool) []*scenario {
 				sc.Features = append(sc.Features, "long-lived-controller")
 			}
 		}
+		if prop == "C17" && i%3 == 0 && sc.Warmup && sc.Hook.Kind == "const" && sc.Hook2 == nil && sc.Family != "rollout" {
+			// the hook's children carry a status stanza (harmless: never applied) and the observed children have one
+			// of their own, written by their controller: nothing of the hook's may leak into the cached objects
+			for _, c := range sc.Hook.Children {
+				c["status"] = J{"phase": "Wanted", "conditions": A{J{"type": "Ready", "status": "Unknown"}}}
+			}
+			for _, ref := range sc.childRefs() {
+				ref.Op, ref.Data = "edit", J{"status": J{"phase": "Running", "conditions": A{J{"type": "Ready", "status": "True"}}, "n": int64(1)}}
+				sc.Setup = append(sc.Setup, ref)
+			}
+			sc.Features = append(sc.Features, "desired-and-observed-status-differ")
+		}
 		// the order of a discovery document's resource list is not specified: a third of all scenarios see
 		// every "x/status" entry before its "x"
 		if i%3 == 2 {
